@@ -44,7 +44,7 @@ ASSUMPTIONS = ['asyncio is a modelled primitive: tasks of L are stepped only by 
                'scenario assumptions written into the model as guards: stop() is called when all callers are done (race mode: or '
                'when the system is quiescent); the own-loop caller keeps its loop running until the others are done']
 TRUSTED = ['harness/gate.py, harness/c17_drive.py, harness/c17_mon.py (Python mirror of the monitor is cross-checked by Coq on '
-           'every case), coq/theories/Case_C17.v']
+           'every case), coq/theories/Case_C17.v (monitor completeness proved in Case_C17_Complete.v; soundness not proved)']
 ALLOWED_AXIOMS = []
 
 SLEEPS = [None, 0, 5, 50]
@@ -237,7 +237,7 @@ def shrink_candidates(case):
 def distribution(cases, obs):
     d = dict(cases=0, callers2=0, callers3=0, events=0, deadlocks=0, time_advances=0, xsubmit_callers=0,
              poolsubmit_callers=0, closed_raises=0, own_direct=0, borrow_runs=0, forever_runs=0, lock_creations=0,
-             lock_waits_seen=0, k1_signature=0)
+             k1_signature=0)
     for m in D.MODES:
         d['mode_' + m] = 0
     for f in D.FORMS:
@@ -291,7 +291,8 @@ LEVEL_TEXT = ('ensure_aw / run_aw_threadsafe / loop_in_thread / _get_loop_lock a
               '(completes_unless_submitted_to_borrowed_loop).  Tied to /repo by running the real helpers under gated threads on '
               'all schedules (preemption-bounded) of 2 callers in 5 modes and random schedules of 3 callers; the model must accept '
               'every observed log event by event and agree on ok/deadlock (deadlock <=> nothing enabled in the model, and '
-              'enabled_is_complete shows that means no operation at all); the monitor decides the property on the log.')
+              'enabled_is_complete shows that means no operation at all); the monitor decides the property on the log, and '
+              'monitor_complete proves that it raises no safety tag on any log the model accepts.')
 LEVEL_NOTE = ('safety: full (theorems over all accepted logs); liveness: progress (no-deadlock) form only, three cases unconditional, '
               'general statement refuted -> K1 (reported as KNOWN-FINDING, any other stuck or incorrect scenario is a VIOLATION); '
               'result_transparent / evaluated_on_target follow the model\'s asyncio assumptions (tasks are stepped by the loop\'s '
@@ -299,4 +300,4 @@ LEVEL_NOTE = ('safety: full (theorems over all accepted logs); liveness: progres
 TECHNIQUE = ('Coq proof (two inductive invariants over all accepted event lists + case analysis for progress + vm_compute witness '
              'for K1) + differential correspondence under gated threads, validated event by event inside Coq by vm_compute')
 CLEAN_FOR_THOROUGH = ['theories/XLoop.vo', 'theories/XLoopInv.vo', 'theories/XLoopSafe.vo', 'theories/XLoopLive.vo',
-                      'theories/XLoopProg.vo', 'theories/XLoopK1.vo', 'theories/Case_C17.vo']
+                      'theories/XLoopProg.vo', 'theories/XLoopK1.vo', 'theories/Case_C17.vo', 'theories/Case_C17_Complete.vo']
